@@ -101,6 +101,21 @@ func (e *evalCtx) eval(x ast.Expr) Val {
 		}
 	case *ast.Ident:
 		return e.ident(t.Name)
+	case *ast.TypeAssertExpr:
+		// x.(*T) for a named struct type T of the package: the boxed pointer
+		// (meaningful only under typeis(x, "*pkg.T"))
+		v := e.eval(t.X)
+		if v.K != kIface {
+			e.fail("type assertion on a non-interface")
+		}
+		if star, ok := t.Type.(*ast.StarExpr); ok {
+			if id, ok := star.X.(*ast.Ident); ok && e.pkg != nil {
+				if obj := e.pkg.Scope().Lookup(id.Name); obj != nil {
+					return ptrVal(types.NewPointer(obj.Type()), sx("unbox", v.S), "0")
+				}
+			}
+		}
+		e.fail("unsupported type assertion in a contract")
 	case *ast.UnaryExpr:
 		switch t.Op {
 		case token.NOT:
